@@ -309,7 +309,7 @@ pub fn run(ctx: &Ctx) -> Report {
          (A) S starts a new session: the reused object must produce, op by op, the same events as a freshly constructed object with the same options, and equal verif_state after the handshake. \
          (B) S resumes: compared with a fresh object given the export and the ids the application holds. non-trivial = H left something behind (limit, alias, keep-alive, pending exchange, timer, partial frame) and S executed at least one op after the handshake",
     );
-    let n = ctx.tier.pick(150_000, 2_000_000);
+    let n = ctx.tier.pick(400_000, 2_000_000);
     let (st, v) = search(ctx, "c10.leak", n, strategy, test);
     rep.absorb("reused_vs_fresh", st, v, false);
     rep.assumptions.push("an undetermined server is compared with a fresh server of the version it adopted (C17: it behaves like a fixed-version server from then on)".into());
